@@ -33,7 +33,7 @@ SHARD = 150
 RULE = ("workbooks written with xlsxwriter: 1..3 sheets of 0..6 rows x 0..6 cells mixing strings (blanks, tabs, line breaks, "
         "XML-special, non-ASCII, non-BMP, '_x0041_', leading '='), numbers (whole numbers up to 2^53 incl. negative and -0.0, "
         "powers of ten 1e15..1e22, random finite floats with exponents -300..300, short decimals), booleans, date-times "
-        "sampled over 1900-03-01..9999-12-31 (every field boundary), dates without time, pure times (every hour/minute/second "
+        "sampled over 1900-03-01..9999-12-31 (every field boundary; a quarter of them with a fraction of a second, which xlrd's tuple rounds away), dates without time, pure times (every hour/minute/second "
         "boundary and random seconds of the day) and gaps; read as sheet 1..4 with rowio.excel_rows and - for sheets that "
         "exist - through cutplace.rows with a CID whose Sheet property requests it; string tables as in C15 written with "
         "XlsxRowWriter (write_rows and write_row) and read back. Observed: the rows, or DataFormatError, or another exception. "
@@ -54,7 +54,19 @@ STR_ALPHABET = ["a", "b", "Z", "0", " ", "\t", "\n", "<", "&", '"', ">", "'", "Ã
 # cell: ["s", text] | ["n", float] | ["b", bool] | ["dt", y,m,d,H,M,S] | ["d", y,m,d] | ["t", H,M,S] | ["none"]
 
 
+def rounded(c):
+    """a date-time / time cell with a fraction of a second is delivered rounded to the whole second (xldate_as_tuple)"""
+    if c[0] == "dtf":
+        t = datetime.datetime(*c[1:7]) + datetime.timedelta(microseconds=c[7] + 500000)
+        return ["dt", t.year, t.month, t.day, t.hour, t.minute, t.second]
+    if c[0] == "tf":
+        t = datetime.datetime(2000, 1, 1, *c[1:4]) + datetime.timedelta(microseconds=c[4] + 500000)
+        return ["t", t.hour, t.minute, t.second]
+    return c
+
+
 def expected_text(c):
+    c = rounded(c)
     k = c[0]
     if k == "s":
         return c[1]
@@ -74,6 +86,7 @@ def expected_text(c):
 
 
 def coq_cell(c):
+    c = rounded(c)
     k = c[0]
     if k == "s":
         return "(XStr %s)" % S(c[1])
@@ -112,6 +125,10 @@ def write_book(path, sheets):
                     ws.write_datetime(y, x, datetime.date(*c[1:4]), dofmt)
                 elif k == "t":
                     ws.write_datetime(y, x, datetime.time(*c[1:4]), tfmt)
+                elif k == "dtf":
+                    ws.write_datetime(y, x, datetime.datetime(*c[1:8]), dfmt)
+                elif k == "tf":
+                    ws.write_datetime(y, x, datetime.time(*c[1:5]), tfmt)
     wb.close()
 
 
@@ -222,6 +239,9 @@ DATE_POINTS = [(1900, 3, 1), (1900, 12, 31), (1999, 12, 31), (2000, 1, 1), (2000
 TIME_POINTS = [(0, 0, 0), (0, 0, 1), (0, 1, 0), (1, 0, 0), (11, 59, 59), (12, 0, 0), (23, 59, 59), (9, 5, 3)]
 
 
+FRACTIONS = [250000, 123000, 750000, 900000, 2000, 333000]      # microseconds; none near a rounding tie
+
+
 def rnd_cell(rnd):
     k = rnd.random()
     if k < 0.2:
@@ -237,9 +257,13 @@ def rnd_cell(rnd):
         if (y, m, d) < (1900, 3, 1):
             y = 1901
         H, M, S = rnd.choice(TIME_POINTS) if rnd.random() < 0.4 else (rnd.randint(0, 23), rnd.randint(0, 59), rnd.randint(0, 59))
+        if rnd.random() < 0.25 and (H, M, S) != (23, 59, 59) and y < 9000:
+            return ["dtf", y, m, d, H, M, S, rnd.choice(FRACTIONS)]     # e.g. the stored result of =NOW()
         return ["dt", y, m, d, H, M, S] if rnd.random() < 0.8 else ["d", y, m, d]
     if k < 0.92:
         H, M, S = rnd.choice(TIME_POINTS) if rnd.random() < 0.4 else (rnd.randint(0, 23), rnd.randint(0, 59), rnd.randint(0, 59))
+        if rnd.random() < 0.2 and (H, M, S) != (23, 59, 59):
+            return ["tf", H, M, S, rnd.choice(FRACTIONS)]
         return ["t", H, M, S]
     return ["none"]
 
@@ -263,7 +287,8 @@ def gen_inputs(tier, rnd):
         for sheet in range(1, len(sheets) + 2):
             yield {"kind": "book", "sheets": sheets, "sheet": sheet, "cid": i % 3 == 0}
     # every cell kind alone on each of three sheets, each sheet requested through the CID path
-    for kind_cell in (["s", "x"], ["n", 42.0], ["n", 4.25], ["b", True], ["dt", 2001, 2, 3, 4, 5, 6], ["d", 2001, 2, 3], ["t", 4, 5, 6]):
+    for kind_cell in (["s", "x"], ["n", 42.0], ["n", 4.25], ["b", True], ["dt", 2001, 2, 3, 4, 5, 6], ["d", 2001, 2, 3], ["t", 4, 5, 6],
+                      ["dtf", 2020, 1, 1, 12, 0, 0, 250000], ["dtf", 2020, 1, 1, 12, 0, 59, 750000], ["tf", 4, 5, 6, 250000]):
         sheets = [[[["s", "sheet%d" % (k + 1)], kind_cell]] for k in range(3)]
         for sheet in (1, 2, 3, 4):
             yield {"kind": "book", "sheets": sheets, "sheet": sheet, "cid": True}
